@@ -21,6 +21,7 @@ another overlay does) and lets both overlays send once more, judged by the same 
 """
 from __future__ import annotations
 
+import gc
 import os
 import random
 import sys
@@ -352,6 +353,7 @@ class Model(core.BfsModel):
             code = 0
             try:
                 os.close(rfd)
+                gc.disable()                            # a collection in the child only dirties copy-on-write pages
                 events._set_running_loop(None)          # asyncio remembers the pid that set the running loop
                 events._set_running_loop(base.loop)
                 random.setstate(rng)
@@ -617,7 +619,7 @@ class Model(core.BfsModel):
         for i, overlay in w.inst.items():
             if overlay is not None:
                 w.send_anon(inst=i)
-        w.flush()
+        # no flush: what N hands to its raw socket and to send_data is recorded at the call, nothing has to be delivered
         v.extend(self.judge(w, f"probe (other prefixes declared not anonymous, plain send, one send by every loaded "
                                f"anonymized instance) after {ev!r}"))
         return v
@@ -637,6 +639,7 @@ LIFE = [("sa",), ("sa2",), ("load2",), ("unload", 1), ("unload", 2), ("toggle",)
 EVERYTHING = FULL + [e for e in LIFE if e not in FULL]
 CORE = [("sa",), ("burst",), ("build", "X", 1), ("build", "Y", 1), ("build", "X", 2),
         ("rm", "first"), ("tick",), ("detach",), ("attach", 2), ("toggle",)]
+CORE_QUICK = [e for e in CORE if e != ("burst",)]    # quick: the burst (most expensive event) only in FULL; see notes
 # ("setp", "tunnel", False) is not in CORE: on a correct tree it is a self-loop, and the probe after every transition
 # performs exactly that call before sending; FULL has it as an event.
 
@@ -660,8 +663,8 @@ WITNESSES = [
 
 def configs(ctx: core.Ctx) -> list[tuple[str, list, int, int]]:
     """(name, alphabet, depth, max circuits started by build events)."""
-    cfg = ([("core", CORE, 9, 2), ("full", FULL, 6, 3), ("life", LIFE, 8, 2)] if ctx.thorough else
-           [("core", CORE, 7, 2), ("full", FULL, 4, 3), ("life", LIFE, 5, 2)])
+    cfg = ([("core", CORE, 9, 2), ("full", FULL, 5, 3), ("life", LIFE, 8, 2)] if ctx.thorough else
+           [("core", CORE_QUICK, 7, 2), ("full", FULL, 4, 3), ("life", LIFE, 5, 2)])
     cap = int(os.environ.get("C07_MAX_DEPTH", "0") or 0)     # screening aid (mutant runs); reported as not exhaustive
     return [(n, a, min(d, cap) if cap else d, mc) for n, a, d, mc in cfg]
 
